@@ -213,6 +213,7 @@ type Fault struct {
 	Site int `json:"site"`
 	Bar  int `json:"bar,omitempty"`
 	K    int `json:"k"`
+	Err  int `json:"err,omitempty"` // which error value the failing call returns (FaultErr)
 }
 
 // SchedSpec selects the search strategy of a run.
